@@ -6,7 +6,7 @@
    boolean recogniser wf_string of Model.v (C09_wf_string_grammar, C09_wf_string_iff_roundtrip). *)
 From Coq Require Import String Ascii List Bool NArith.
 Import ListNotations.
-Require Import V.Lib.PyStr V.Ref.Model V.Ref.Proofs V.Ref.Accept V.Ref.Listing.
+Require Import V.Lib.PyStr V.Ref.Model V.Ref.Proofs V.Ref.Accept V.Ref.Listing V.Ref.Session.
 Open Scope string_scope.
 
 (* parse (print parts) = parts, whatever the application dependencies and extra folders *)
@@ -198,6 +198,71 @@ Theorem C09_classify_component_listing : forall st prod file meth ctx known ad r
 Proof. exact classify_component_listing. Qed.
 Print Assumptions C09_classify_component_listing.
 
+(* ---------------------------------------------------------------- the life cycle of ONE Manifest object *)
+(* the keys a manifest holds after Manifest(init) and any sequence of update() / clear() are exactly those given to the
+   constructor or to an update() that no clear() follows *)
+Theorem C09_session_keys_live : forall init ops k, In k (mrun init ops) <-> live (events init ops) k.
+Proof. exact session_keys_live. Qed.
+Print Assumptions C09_session_keys_live.
+
+(* top_level_folders read after the session: the first path segment of every key held NOW is a folder ... *)
+Theorem C09_session_folders_complete : forall init ops k,
+  In k (mrun init ops) -> in_strs (first_seg_of "/" k) (session_folders init ops) = true.
+Proof. exact session_folders_complete. Qed.
+Print Assumptions C09_session_folders_complete.
+
+(* ... and only those: a folder whose keys were dropped by clear() (or never added) is not reported *)
+Theorem C09_session_folders_sound : forall init ops f,
+  In f (session_folders init ops) ->
+  hasc "/" f = false /\ exists k, live (events init ops) k /\ (k = f \/ exists rest, k = f ++ String "/" rest).
+Proof. exact session_folders_sound. Qed.
+Print Assumptions C09_session_folders_sound.
+
+Theorem C09_session_after_update : forall init ops new k,
+  In k new -> in_strs (first_seg_of "/" k) (session_folders init (ops ++ [MUpdate new])) = true.
+Proof. exact session_after_update. Qed.
+Print Assumptions C09_session_after_update.
+
+Theorem C09_session_update_keeps : forall init ops new f,
+  in_strs f (session_folders init ops) = true -> in_strs f (session_folders init (ops ++ [MUpdate new])) = true.
+Proof. exact session_update_keeps. Qed.
+Print Assumptions C09_session_update_keeps.
+
+Theorem C09_session_after_clear : forall init ops, session_folders init (ops ++ [MClear]) = [].
+Proof. exact session_after_clear. Qed.
+Print Assumptions C09_session_after_clear.
+
+(* a reference into a folder of the CURRENT manifest is never a component reference, for both classifiers *)
+Theorem C09_classify_direct_session : forall r a meth idx ad init ops k,
+  split_colon r = Some (a, meth) ->
+  stage_prefixed (first_seg_of "/" a) = false ->
+  In k (mrun init ops) -> first_seg_of "/" k = first_seg_of "/" a ->
+  exists prod file, parse_full r idx ad (session_folders init ops) = Some (None, prod, file, meth).
+Proof. exact classify_direct_session. Qed.
+Print Assumptions C09_classify_direct_session.
+
+Theorem C09_classify_direct_expand_session : forall r a meth ctx known ad init ops k,
+  split_colon r = Some (a, meth) -> known_noslash known ->
+  stage_prefixed (first_seg_of "/" a) = false ->
+  In k (mrun init ops) -> first_seg_of "/" k = first_seg_of "/" a ->
+  known_in known ctx (first_seg_of "/" a) = false ->
+  expand_one r ctx known ad (session_folders init ops) = Some r.
+Proof. exact classify_direct_expand_session. Qed.
+Print Assumptions C09_classify_direct_expand_session.
+
+(* a well-formed reference whose producer is not (or no longer) the first segment of a live key is a component reference *)
+Theorem C09_classify_component_session : forall st prod file meth ctx known ad init ops,
+  wf_component (st, prod, file, meth) = true ->
+  is_var_reference prod = false ->
+  (st = None -> (forall k, live (events init ops) k -> first_seg_of "/" k <> prod) /\
+                in_strs prod Special = false /\ in_strs prod (map app_dep_name ad) = false) ->
+  let mi := match st with Some n => n | None => ctx end in
+  let tlf := session_folders init ops in
+  expand_one (print_pref (st, prod, file, meth)) ctx known ad tlf = Some (print_pref (Some mi, prod, file, meth)) /\
+  parse_full (print_pref (st, prod, file, meth)) (Some ctx) ad tlf = Some (Some mi, prod, file, meth).
+Proof. exact classify_component_session. Qed.
+Print Assumptions C09_classify_component_session.
+
 (* non-vacuity: a stage-prefixed reference with dots, dashes, loop prefix and a nested glob path is in the
    grammar and round-trips; the nested manifest key foo/bar makes foo/bar/f.txt:ref a folder reference while
    gen_2/out.d/f.txt:ref of stage 3 becomes stage3.gen_2/out.d/f.txt:ref *)
@@ -231,5 +296,17 @@ Example C09_nonvacuous :
   dir_folders KFile true true [("lib", KDir)] = [] /\
   expand_refs ["models/weights.bin:ref"; "lib/tool.sh:copy"; "gen_2/out.d/f.txt:ref"; "old/x:ref"] 3 (Some [(3%N, ["gen_2"])]) []
               (dir_folders KDir true false [("README.md", KLinkFile); ("gen_2", KFile); ("lib", KDir); ("models", KLinkDir); ("old", KDangling)])
-    = Some ["models/weights.bin:ref"; "lib/tool.sh:copy"; "stage3.gen_2/out.d/f.txt:ref"; "stage3.old/x:ref"].
+    = Some ["models/weights.bin:ref"; "lib/tool.sh:copy"; "stage3.gen_2/out.d/f.txt:ref"; "stage3.old/x:ref"] /\
+  (* one Manifest object: created with hooks, extended with a flat and a nested key (hooks again: keeps its place),
+     emptied, extended again: the folders follow, and scripts/run.sh is a folder reference only while the manifest holds scripts *)
+  mrun ["hooks"] [MUpdate ["scripts"; "assets/models/large"; "hooks"]] = ["hooks"; "scripts"; "assets/models/large"] /\
+  session_folders ["hooks"] [MUpdate ["scripts"; "assets/models/large"; "hooks"]] = ["hooks"; "scripts"; "assets"] /\
+  session_folders ["hooks"] [MUpdate ["scripts"; "gen_2/x"]; MClear] = [] /\
+  session_folders ["hooks"] [MUpdate ["scripts"]; MClear; MUpdate ["assets"]] = ["assets"] /\
+  expand_refs ["scripts/run.sh:ref"; "assets/models/large/weights.bin:link"; "gen_2/out.d/f.txt:ref"] 3 (Some [(3%N, ["gen_2"])]) []
+              (session_folders ["hooks"] [MUpdate ["scripts"; "assets/models/large"]])
+    = Some ["scripts/run.sh:ref"; "assets/models/large/weights.bin:link"; "stage3.gen_2/out.d/f.txt:ref"] /\
+  expand_refs ["scripts/run.sh:ref"; "gen_2/out.d/f.txt:ref"] 3 (Some [(3%N, ["gen_2"])]) []
+              (session_folders ["hooks"] [MUpdate ["scripts"; "gen_2/x"]; MClear; MUpdate ["assets"]])
+    = Some ["stage3.scripts/run.sh:ref"; "stage3.gen_2/out.d/f.txt:ref"].
 Proof. repeat split; vm_compute; reflexivity. Qed.
